@@ -4,6 +4,7 @@ package osm
 
 import (
 	"encoding/json"
+	"time"
 )
 
 // C05: "Marshalling OSM data to JSON produces ... osmjson: an elements array
@@ -36,6 +37,10 @@ func oracleC05JSONShape(o OSM, dropVersion bool) {
 	}
 	if dropVersion {
 		o.Version = ""
+	}
+	if len(o.Notes) > 0 {
+		// a note date with a sub-second part keeps it
+		o.Notes[0].DateCreated = Date{Time: time.Date(2019, 6, 15, 8, 26, 4, 123456789, time.UTC)}
 	}
 	data, err := json.Marshal(o)
 	vAssume(err == nil)
@@ -74,6 +79,9 @@ func oracleC05JSONShape(o OSM, dropVersion bool) {
 	vAssert(json.Unmarshal(data, &back) == nil)
 	vAssert(c04Counts(&back) == c04Counts(&o))
 	vAssert(back.Version == o.Version) // in particular "" stays ""
+	if len(o.Notes) > 0 && len(back.Notes) > 0 {
+		vAssert(back.Notes[0].DateCreated.Equal(o.Notes[0].DateCreated.Time))
+	}
 	vAssert(back.Generator == o.Generator && back.Copyright == o.Copyright && back.Attribution == o.Attribution && back.License == o.License)
 	for i := range o.Ways {
 		if i < len(back.Ways) {
